@@ -1,5 +1,6 @@
 (* CliRepairProofs.v — `mlar repair` (CliRepair.v): the output side when the open fails, and the
    key policy of open_failsafe_mla_file on an archive made by create. *)
+From MLA Require Import Limit.
 From MLA Require Import Base Stream Blocks Writer Reader RoundTripBlocks RoundTripWriter RoundTrip EncLayer CompLayer CompFailSafe
   FsCompStream Repair Format Ecies Archive ArchiveProofs Cli CliProofs CliArchive CliRepair Run.
 From Coq Require Import ZifyBool ZifyNat ZifyN Permutation.
@@ -7,6 +8,7 @@ Open Scope N_scope.
 
 Section CliRepairProofs.
   Variables CHUNK TAG CIPHERBUF BLOCK LIMIT FNMAX CACHE FSBUF : N.
+  Local Hint Extern 0 Limit => exact LIMIT : typeclass_instances.
   Variables TS TC TA TE : N.
   Variable H : bytes -> bytes.
   Variable order : footer -> footer.
